@@ -324,9 +324,33 @@ pub fn run_case(case: &mut Case) {
                 }
             }
         }
+        // a group title that is computed and comes out empty: `group_help(Doc::default())`
+        fn empty_titles(s: &mut Spec, rng: &mut crate::rng::Rng, n: &mut u32) {
+            match s {
+                Spec::Wrap { w, inner, .. } => {
+                    if let W::GroupHelp(h) = w {
+                        if rng.chance(1, 6) {
+                            *h = crate::build::EMPTY_DOC.to_string();
+                            *n += 1;
+                        }
+                    }
+                    empty_titles(inner, rng, n);
+                }
+                Spec::Seq(xs) | Spec::Alt(xs) | Spec::Adj(xs) => {
+                    xs.iter_mut().for_each(|x| empty_titles(x, rng, n))
+                }
+                Spec::Cmd(c) => empty_titles(&mut c.opts.root, rng, n),
+                _ => {}
+            }
+        }
+        let mut n = 0;
+        empty_titles(&mut spec.root, p.rng, &mut n);
         spec
     };
     let b = Bench::new(case, spec);
+    if b.spec.pretty().contains(crate::build::EMPTY_DOC) {
+        case.rep.count("definitions-with-an-empty-group-title");
+    }
     let mut env_guard = EnvGuard(Vec::new());
     if rng.chance(1, 3) {
         // only plain fields of the top level (bare, optional or defaulted): under repetition, in
